@@ -390,7 +390,7 @@ pub fn gen(prop: &'static str, a: &Args) -> String {
         _ => "one administrative history generated online (65-90% the next sensible commissioning step, rest out-of-order / repeated / other-session commands, expiry by timer / ArmFailSafe(0) / revoke / restart, store faults); non-trivial = the fail-safe was armed, a credential/ACL/group/label/network change was accepted under it, and the fail-safe ended (completed or rolled back); distinct = by operation list",
     };
     out.buf.push_str(&format!("#rule {}\n", rule));
-    let n_cases = if a.thorough { 24000 } else { 3000 };
+    let n_cases = if a.thorough { 20000 } else { 3000 };
     let h_every = if a.thorough { 20 } else { 15 };
     for id in 0..n_cases {
         let len = if a.thorough { r.range(8, 70) } else { r.range(8, 40) } as usize;
